@@ -89,10 +89,36 @@ def run(ck, P):
             raise AnalysisBroken("m_mod_unstash: loop exit '%s' not modelled (R-TRIPCOUNT handles counted exits on `%s`)" % (S(cond), lenp))
     if not counted:
         ck.ob("C16.2-TRIPCOUNT", us.site("moves==len"), False, "the move loop has no exit that depends on `%s`: everything is moved whatever len says" % lenp)
+    # edges that contradict what the entry guards established (e.g. the false arm of a redundant `len > 0 &&` under
+    # M_PARAM_ASSERT(len > 0)) are not paths: dominance is taken on the graph without them
+    dead = set()
+    INp, trp = rules.mustfacts(us, None, passed=True)
+    for bb in us.blocks.values():
+        fin = INp.get(bb.id)
+        if fin is not None:
+            for e_ in bb.events:
+                fin = trp(fin, e_)
+        for (s_, cond_, br_) in us.edges(bb.id):
+            if cond_ is None or br_ not in (True, False):
+                continue
+            for (a_, p_) in lm.atoms(cond_, br_):
+                if fin is not None and (a_, not p_) in fin:
+                    dead.add((bb.id, s_))
+
+    def _dominates(b_, target):
+        seen, st = set(), [us.entry]
+        while st:
+            x = st.pop()
+            if x in seen or x == b_:
+                continue
+            seen.add(x)
+            if x == target:
+                return False
+            st.extend(s2 for s2 in us.blocks[x].succs if s2 is not None and (x, s2) not in dead)
+        return True
     for (b, a, cs) in counted:
-        dom = us.dominators()
-        before = b in dom[mv.block.id]          # test executes before the move of the same iteration
-        after = mv.block.id in dom[b]
+        before = _dominates(b, mv.block.id)          # test executes before the move of the same iteration
+        after = _dominates(mv.block.id, b)
         ck.need(before != after, "cannot order exit test and move")
         # exit when idx + a == len  => idx = len - a ; moves completed = idx (test before move) or idx + 1 (after)
         moved = "len%+d" % (-a + (0 if before else 1))
